@@ -362,9 +362,24 @@ def emptiness(lits, xs):
 
 # ---- restore: the write plan
 def _part_loop_var(L):
-    """name of the carried variable of loop L that adds up `end - start` of each element's 'range' from 0, or None"""
+    """name of a carried variable of loop L that adds up `end - start` of each element's 'range' from 0, or None"""
+    vs = _part_loop_vars(L)
+    return vs[0] if vs else None
+
+
+def _counts_iterations(L, key):
+    """the carried variable is 0 before the loop and a 1-based enumerate index inside: it is falsy exactly when there was no iteration"""
+    if not F.is_const(L.init.get(key), 0):
+        return False
+    nexts = L.next_of(key)
+    return bool(nexts) and all(v is not None and v[0] == 'enumidx' and type(v[2]) is int and v[2] >= 1 for v in nexts)
+
+
+def _part_loop_vars(L):
+    """the carried variables of loop L that add up `end - start` of each element's 'range' from 0"""
+    out = []
     if L.kind != 'for':
-        return None
+        return out
     for n in L.carried:
         if not F.is_const(L.init.get(n), 0):
             continue
@@ -387,8 +402,8 @@ def _part_loop_var(L):
                 ok = False
                 break
         if ok:
-            return n
-    return None
+            out.append(n)
+    return out
 
 
 def _by_counter_key(k):
@@ -436,8 +451,8 @@ def restore_plan(path):
         if e.kind != 'loop':
             continue
         L = e.a
-        var = _part_loop_var(L)
-        if var is None:
+        pvars = _part_loop_vars(L)
+        if not pvars:
             continue
         res['n'] += 1
         if not _sorted_by_counter(L.iter, events[:i]):
@@ -446,7 +461,7 @@ def restore_plan(path):
         after = events[i + 1:]
         lits = [(x.a, x.b) for x in events if x.kind == 'cond']
         # final length: SIZES[file path] = the accumulated offset
-        stores = [x for x in after if x.kind == 'store' and F.strip(x.b) == ('loopout', L.uid, var)
+        stores = [x for x in after if x.kind == 'store' and F.strip(x.b) in [('loopout', L.uid, v) for v in pvars]
                   and x.a[0] == 'sub' and F.sym_uid(x.a[1]) is not None]
         keyed = [x for x in stores if F.strip(x.a[2])[0] == 'sub' and F.strip(x.a[2])[2] == ('const', 'path')]
         sz = F.sym_uid(keyed[0].a[1]) if len(keyed) == 1 else None
@@ -458,6 +473,16 @@ def restore_plan(path):
         # chunkless: when there is nothing to iterate, the file path is remembered in a list
         src = unwrap_iter(L.iter[3][0]) if (L.iter[0] == 'call' and L.iter[3]) else L.iter
         emp = emptiness(lits, [L.iter, src])
+        if emp is None:
+            # counted instead: `for n, x in enumerate(…, start=1)` with n = 0 before; `not n` afterwards means no iteration
+            for l, pol in lits:
+                c, pp = F.canon_lit(l, pol)
+                if c[0] == 'loopout' and c[1] == L.uid and _counts_iterations(L, c[2]):
+                    emp = not pp
+                if c[0] == 'cmp' and c[1] == '==' and ('const', 0) in (c[2], c[3]):
+                    o = c[3] if c[2] == ('const', 0) else c[2]
+                    if o[0] == 'loopout' and o[1] == L.uid and _counts_iterations(L, o[2]):
+                        emp = pp
         apps = [x for x in events if x.kind == 'call' and x.a[0] == 'call' and x.a[2][0] == 'attr' and x.a[2][2] in ('append', 'add')
                 and x.a[2][1][0] in ('list', 'set') and not x.a[2][1][2]
                 and len(x.a[3]) == 1 and F.strip(x.a[3][0])[0] == 'sub' and F.strip(x.a[3][0])[2] == ('const', 'path')]
